@@ -23,7 +23,8 @@ ASSUMPTIONS = [
     'a derived strength of inf, outside the premise)',
     '"reaches the final strength" allows 1 ulp in float32',
 ]
-REQUIRED_MONITORS = ['c19.duccio_value', 'c19.strength_schedule', 'c19.base', 'c19.real_model']
+REQUIRED_MONITORS = ['c19.duccio_value', 'c19.strength_schedule', 'c19.base', 'c19.real_model',
+                     'c19.derived_history']
 MIN_NONTRIVIAL = {'quick': 400, 'thorough': 1500}
 EXHAUSTIVE = {'quick': False, 'thorough': False}
 EXHAUSTIVE_NOTE = 'the (epoch, n_epochs) grid is complete in both tiers; cost placements are sampled'
@@ -77,7 +78,10 @@ def run_duccio(case, ctx):
     for nm in names:
         t = 10 ** rng.uniform(0, 6)
         if case['mode'] == 'derived':
-            p = 'above'
+            # a derived strength is positive only for a metric that starts above its target; the
+            # other metrics of a multi-metric constraint may start below theirs (derived strength
+            # 0: they never contribute)
+            p = 'above' if nm == names[0] else rng.choice(['above', 'below'])
         else:
             p = rng.choice(['above', 'above', 'at', 'below'])
         c = {'above': t * (1 + 10 ** rng.uniform(-4, 1)), 'at': t,
@@ -151,6 +155,16 @@ def run_duccio(case, ctx):
         if not v2 > v:
             ctx.violation('duccio-value', dict(detail, sig='not-increasing-in-excess', metric=nm,
                                                value_bumped=v2))
+    # history: a metric that was below its target when the strengths were derived later exceeds it
+    # (the search trades one metric for another): the penalty stays a finite non-negative number
+    if case['mode'] == 'derived' and 'below' in place:
+        later = {nm: (float(targets[nm]) * (1 + 10 ** rng.uniform(-2, 1)) if p == 'below' else c)
+                 for (nm, c), p in zip(costs.items(), place)}
+        v3 = float(reg(StubDNAS(later), e, n))
+        ctx.mon('c19.derived_history')
+        if not math.isfinite(v3) or v3 < 0:
+            ctx.violation('duccio-value', dict(detail, sig='negative-after-metric-crossed-target',
+                                               later_costs=later, later_value=v3))
     mixed = any(x > 0 for x in excess) and any(x == 0 for x in excess)
     if mixed or (0 < e < n / 2):
         ctx.nontriv((e, n, tuple(place), case['mode']))
